@@ -71,8 +71,9 @@ func (c *Ctx) ruleI1(rule string) {
 	}
 }
 
-func runC15(c *Ctx) {
-	// V1
+// ruleOneStore: exactly one allocation of a local-variable store, in RuleEntity.Execute, outside any loop,
+// handed to the rule body and to nothing else.
+func (c *Ctx) ruleOneStore(rule string) {
 	nLocal := 0
 	for _, f := range c.AllFns {
 		x := c.Index(f)
@@ -119,16 +120,21 @@ func runC15(c *Ctx) {
 			}
 			uses(mm, 0)
 			if toBase && other == "" {
-				c.Check("V1-one-store-per-execution", key, true, in.Pos(), "the injected table of a new data context")
+				c.Check(rule, key, true, in.Pos(), "the injected table of a new data context")
 				return
 			}
 			nLocal++
 			inLoop := x.InnermostLoop(in.Block()) != nil
-			c.Check("V1-one-store-per-execution", key, toExec && other == "" && !inLoop, in.Pos(), "a local-variable store must be created only in RuleEntity.Execute and handed to the rule body (%s)", orStr(other, "ok"))
+			c.Check(rule, key, toExec && other == "" && !inLoop, in.Pos(), "a local-variable store must be created only in RuleEntity.Execute and handed to the rule body (%s)", orStr(other, "ok"))
 		})
 	}
-	c.Check("V1-one-store-per-execution", "count", nLocal == 1, 0, "%d allocations of a local-variable store (want exactly one, in RuleEntity.Execute)", nLocal)
-	c.Min("V1-one-store-per-execution", 3)
+	c.Check(rule, "count", nLocal == 1, 0, "%d allocations of a local-variable store (want exactly one, in RuleEntity.Execute)", nLocal)
+	c.Min(rule, 3)
+}
+
+func runC15(c *Ctx) {
+	// V1
+	c.ruleOneStore("V1-one-store-per-execution")
 	// V2
 	for _, f := range c.AllFns {
 		if f.Pkg == nil {
